@@ -370,7 +370,7 @@ mod v_iface_frag_tx {
     // (b) the same through the public egress path: a UDP socket holds the oversized D2 while D1 (first fragment
     // already sent by `dispatch_ip`, as an ingress-triggered reply or an earlier socket of the pass does) still
     // has two fragments to go; three `poll_egress` passes on devices that accept every frame.
-    // @harness props=C12 cfg=KI4 tier=q to=1200 mem=9 unwind=12 opts=nomem covers=2 funcs=Interface::poll_egress;Interface::ipv4_egress;Interface::socket_egress;udp::Socket::dispatch;InterfaceInner::dispatch_ip;InterfaceInner::dispatch_ipv4_frag bounds=MTU_44;_D1_=_UDP_41_bytes_(3_fragments,_first_sent_by_dispatch_ip);_D2_=_UDP_17_bytes_(2_fragments)_queued_in_one_UDP_socket;_3_poll_egress_passes;_device_always_accepts
+    // @harness props=C12 cfg=KI4 tier=q to=900 mem=8 unwind=12 opts=nomem covers=2 funcs=Interface::poll_egress;Interface::ipv4_egress;Interface::socket_egress;udp::Socket::dispatch;InterfaceInner::dispatch_ip;InterfaceInner::dispatch_ipv4_frag bounds=MTU_44;_D1_=_UDP_41_bytes_(3_fragments,_first_sent_by_dispatch_ip);_D2_=_UDP_17_bytes_(2_fragments)_queued_in_one_UDP_socket;_3_poll_egress_passes;_device_always_accepts
     #[kani::proof]
     pub(crate) fn ipv4_frag_busy_socket() {
         let mut da = CapDev::<48>::new(Medium::Ip, 44, ChecksumCapabilities::ignored());
@@ -450,27 +450,32 @@ mod v_iface_frag_tx {
     }
 
     // ------------------------------------------------------------------ reassembly through the real ingress path
-    // Ghost datagram: protocol 253, 20 symbolic payload bytes, fragments [0,8) [8,16) [16,20), any ident; frames are
-    // RFC 791 byte templates written here.  4 symbolic picks: every order and duplication within the bound.
-    fn frag_frame(ident: u16, off: usize, mf: bool, g: &[u8; 20], n: usize) -> [u8; 28] {
+    // Ghost datagram: protocol 253, 24 symbolic payload bytes, fragments [0,8) [8,16) [16,24), any ident; the frame of
+    // each step is an RFC 791 byte template written here (offset and MF chosen by the symbolic pick, one
+    // `process_ip` call per step).  4 symbolic picks: every order and duplication within the bound.
+    const GL: usize = 24;
+
+    fn frag_frame(ident: u16, pick: u8, g: &[u8; GL]) -> [u8; 28] {
+        let off = pick as usize * 8;
         let mut f = [0u8; 28];
         f[0] = 0x45;
-        f[3] = (IPH + n) as u8;
+        f[3] = 28;
         f[4] = (ident >> 8) as u8;
         f[5] = ident as u8;
-        f[6] = if mf { 0x20 } else { 0 };
-        f[7] = (off / 8) as u8;
+        f[6] = if pick != 2 { 0x20 } else { 0 };
+        f[7] = pick;
         f[8] = 64;
         f[9] = 253;
         f[12..16].copy_from_slice(&REMOTE.octets());
         f[16..20].copy_from_slice(&LOCAL.octets());
-        let mut i = 0;
-        while i < 8 {
-            if i < n {
-                f[IPH + i] = g[off + i];
-            }
-            i += 1;
-        }
+        f[20] = g[off];
+        f[21] = g[off + 1];
+        f[22] = g[off + 2];
+        f[23] = g[off + 3];
+        f[24] = g[off + 4];
+        f[25] = g[off + 5];
+        f[26] = g[off + 6];
+        f[27] = g[off + 7];
         f
     }
 
@@ -479,15 +484,12 @@ mod v_iface_frag_tx {
         (m & 1 != 0) as usize + ((m & 2 != 0) && (m & 1 == 0)) as usize + ((m & 4 != 0) && (m & 2 == 0)) as usize
     }
 
-    // @harness props=C12 cfg=KI4 tier=q to=1200 mem=8 unwind=12 opts=nomem,fs300 covers=3 funcs=InterfaceInner::process_ip;InterfaceInner::process_ipv4;PacketAssemblerSet::get;PacketAssembler::set_total_size;PacketAssembler::add;PacketAssembler::assemble;raw::Socket::process bounds=datagram_of_20_payload_bytes_in_3_fragments_(8+8+4);_4_symbolic_picks_(every_order_and_duplication);_symbolic_ident_and_bytes;_raw_socket_as_receiver;_no_expiry
+    // @harness props=C12 cfg=KI4 tier=q to=900 mem=8 unwind=12 opts=nomem covers=3 funcs=InterfaceInner::process_ip;InterfaceInner::process_ipv4;PacketAssemblerSet::get;PacketAssembler::set_total_size;PacketAssembler::add;PacketAssembler::assemble;raw::Socket::process bounds=datagram_of_24_payload_bytes_in_3_fragments_of_8;_4_symbolic_picks_(every_order_and_duplication);_symbolic_ident_and_bytes;_raw_socket_as_receiver;_no_expiry
     #[kani::proof]
     pub(crate) fn ipv4_reasm_process() {
         ip_iface!(dev, iface, 1500, ChecksumCapabilities::ignored());
-        let g: [u8; 20] = kani::any();
+        let g: [u8; GL] = kani::any();
         let ident: u16 = kani::any();
-        let f0 = frag_frame(ident, 0, true, &g, 8);
-        let f1 = frag_frame(ident, 8, true, &g, 8);
-        let f2 = frag_frame(ident, 16, false, &g, 4);
         let mut rxm = [sraw::PacketMetadata::EMPTY; 2];
         let mut rxp = [0u8; 48];
         let mut txm = [sraw::PacketMetadata::EMPTY; 1];
@@ -514,23 +516,22 @@ mod v_iface_frag_tx {
                 crate::vdump!("pick {}", pick);
                 let bit = 1u8 << pick;
                 dup = dup || mask & bit != 0;
-                ooo = ooo || (mask | bit) & (bit - 1) != bit - 1;
+                ooo = ooo || mask & (bit - 1) != bit - 1;
                 mask |= bit;
                 over = over || runs3(mask) > crate::config::ASSEMBLER_MAX_SEGMENT_COUNT;
-                let reply_none = match pick {
-                    0 => iface.inner.process_ip(&mut sockets, PacketMeta::default(), &f0[..28], &mut iface.fragments).is_none(),
-                    1 => iface.inner.process_ip(&mut sockets, PacketMeta::default(), &f1[..28], &mut iface.fragments).is_none(),
-                    _ => iface.inner.process_ip(&mut sockets, PacketMeta::default(), &f2[..24], &mut iface.fragments).is_none(),
-                };
-                assert!(reply_none, "prop:c12_reasm_fragment_causes_no_reply");
+                {
+                    let f = frag_frame(ident, pick, &g);
+                    let reply_none = iface.inner.process_ip(&mut sockets, PacketMeta::default(), &f[..], &mut iface.fragments).is_none();
+                    assert!(reply_none, "prop:c12_reasm_fragment_causes_no_reply");
+                }
                 match sockets.get_mut::<sraw::Socket>(h).recv() {
                     Ok(b) => {
                         assert!(mask == 7, "prop:c12_reasm_delivers_only_when_every_byte_present");
-                        assert!(b.len() == IPH + 20, "prop:c12_reasm_delivered_length_exact");
+                        assert!(b.len() == IPH + GL, "prop:c12_reasm_delivered_length_exact");
                         let hh = hdr(&b[..IPH]);
-                        assert!(hh.total == IPH + 20 && !hh.mf && hh.off == 0 && hh.proto == 253 && hh.src == REMOTE.octets() && hh.dst == LOCAL.octets(),
+                        assert!(hh.total == IPH + GL && !hh.mf && hh.off == 0 && hh.proto == 253 && hh.src == REMOTE.octets() && hh.dst == LOCAL.octets(),
                                 "prop:c12_reasm_delivered_header_describes_whole_datagram");
-                        let k = any_lt(20);
+                        let k = any_lt(GL);
                         assert!(b[IPH + k] == g[k], "prop:c12_reasm_delivered_bytes_equal_datagram");
                         mask = 0;
                         delivered += 1;
